@@ -777,10 +777,43 @@ def c09(W, replay=None):
                         scen += redis_cmd_variants(sc)
         scen += logout_histories(W, 300 if thorough else 40)
         scen += discovery_family(W) + dup_chain_family(W) + decoy_family(W) + held_call_family(W) + replica_family(W) + env_std(W) + debug_family(W)
+    extra = []
+    if replay and os.path.exists(os.path.join(replay, "scenario.ndjson")):
+        rs = [json.loads(l) for l in open(os.path.join(replay, "scenario.ndjson")) if l.strip()]
+        if rs and rs[0].get("conc"):
+            # a concurrent store history: the schedule is not reproducible, the same operations are run concurrently again (a few times)
+            rv = removed_stays_removed(W, 0, given=rs * 100)
+            idx = rv.pop("index")
+            return judge("C09", W, [rv], idx, traces=len(rs) * 100, samples=[{"scenario": rs[0]}])
+    if not replay:
+        extra.append(removed_stays_removed(W, 800 if thorough else 100))
     return sys_pipeline("C09", W, scen, None, [
         "interleavings are at store-call / token-endpoint-call / key-lookup granularity (the gates of the harness)",
         "a check whose last store access preceded the logout's removal and which is answered later is treated as an answer delayed in the network",
-    ], replay=replay)
+    ], replay=replay, extra_verdicts=extra)
+
+
+def removed_stays_removed(W, n, given=None):
+    """The in-memory store's own clean-up (RemoveAllExpired) as an actor concurrent with removals (what a logout does) and
+    reads: sessions within their limits, hundreds of them, swept again and again while two goroutines remove a session and
+    read it afterwards. Judged by RemovedTrace.tla: what was removed with no write in flight is not there afterwards."""
+    rnd = random.Random(W.seed * 15485863 + 3)
+    scen = [dict(g, id="%s#%d" % (g["id"], i)) for i, g in enumerate(given or [])]
+    for k in range(0 if given else n):
+        a, i = rnd.choice([(70, 50), (70, 0), (0, 50)])
+        pre = []
+        for sid in ("s1", "s2"):
+            pre += [{"op": "SetAuth", "sid": sid, "v": rnd.randint(1, 3)}, {"op": "SetTok", "sid": sid, "v": rnd.randint(1, 3)}]
+        pre.append({"op": "flood", "sid": "s1", "v": rnd.choice([100, 300, 600])})
+        pre.append({"op": "tick", "v": rnd.choice([1, 5, 20])})
+        ops = [{"op": "sweep", "sid": "s1", "v": 0, "thr": 9} for _ in range(4)] + [{"op": "sweep", "sid": "s1", "v": 0, "thr": 8} for _ in range(2)]
+        for thr, sid in ((1, "s1"), (2, "s2")):
+            ops += [{"op": op, "sid": sid, "v": 0, "thr": thr} for op in (rnd.choice(["GetTok", "GetAuth"]), "Remove", "GetTok", "GetAuth", "GetTok")]
+        scen.append({"id": "rsr/%d" % k, "store": "memory", "abs": a, "idle": i, "conc": True, "pre": pre, "ops": ops})
+    trace = W.drive("TestStore", scen, "rsr", env_extra={"VERIF_CLOCK_JITTER": "1"})
+    v = W.validate(trace, "rsr", module="RemovedTrace")
+    v["index"] = {s_["id"]: s_ for s_ in scen}
+    return v
 
 
 def held_call_family(W):
@@ -1526,10 +1559,19 @@ def lin_expired(W, n, given=None):
         if rnd.random() < 0.8:
             pre.append({"op": "tick", "v": rnd.choice([8, 9, 30])})
         ops = []
-        for thr in range(4):
+        sweeper = k % 3 == 0
+        if sweeper:
+            # the store's own clean-up as a concurrent actor: sessions within their limits, many of them, swept while others are removed and read
+            a, i = rnd.choice([(70, 50), (70, 0), (0, 50)])
+            pre = [p_ for p_ in pre if p_["op"] not in ("tick", "flood")] + [{"op": "flood", "sid": "s1", "v": 300}]
+            ops += [{"op": "sweep", "sid": "s1", "v": 0, "thr": 9} for _ in range(3)]
+        for thr in range(3 if sweeper else 4):
+            sid = rnd.choice(["s1", "s2"])
             for j in range(3):
                 op = rnd.choice(["GetTok", "GetTok", "GetAuth", "GetAuth", "GetAuth", "SetTok", "SetAuth", "ClearAuth", "Remove"])
-                ops.append({"op": op, "sid": rnd.choice(["s1", "s1", "s2"]), "v": rnd.randint(1, 3) if op.startswith("Set") else 0, "thr": thr + 1})
+                if sweeper:
+                    op = ("Remove", "GetTok", "GetAuth")[j] if thr < 2 else op
+                ops.append({"op": op, "sid": sid if sweeper and thr < 2 else rnd.choice(["s1", "s1", "s2"]), "v": rnd.randint(1, 3) if op.startswith("Set") else 0, "thr": thr + 1})
         scen.append({"id": "linx/%d" % k, "store": "memory", "abs": a, "idle": i, "conc": True, "pre": pre, "ops": ops})
     W.build(race=True)
     trace, rc, out = W.drive("TestStore", scen, "linx", env_extra={"VERIF_CLOCK_JITTER": "1", "VERIF_ANNOUNCE": "1"}, race=True)
